@@ -126,6 +126,7 @@ func (clnt *Clnt) Rpc(tc *Fcall) (rc *Fcall, err error) {
 	r.Done = make(chan *Req, 1)
 	err = clnt.Rpcnb(r)
 	if err != nil {
+		clnt.ReqFree(r)
 		return
 	}
 
